@@ -268,7 +268,8 @@ Qed.
 Lemma in_block_iff : forall b s, b < numberOfBlocks c ->
   (In s (nth b (sc_blocks c) []) <-> s < n /\ nth s (sc_sbi c) 0 = b).
 Proof.
-  intros b s Hb. rewrite (inv_blocks _ _ _ I b Hb), filter_In, in_seq, Nat.eqb_eq. intuition lia.
+  intros b s Hb. rewrite (inv_blocks _ _ _ I b Hb), filter_In, in_seq, Nat.eqb_eq.
+  split; intros [H1 H2]; (split; [lia|exact H2]).
 Qed.
 
 Lemma block_nth_error : forall b, b < numberOfBlocks c -> nth_error (sc_blocks c) b = Some (nth b (sc_blocks c) []).
@@ -295,7 +296,8 @@ Lemma exactly_one_block : forall s, s < n ->
             forall b', b' < numberOfBlocks c -> (In s (nth b' (sc_blocks c) []) <-> b' = b).
 Proof.
   intros s Hs. exists (nth s (sc_sbi c) 0). split; [apply block_lt; exact Hs|]. split; [apply gbn_ok; exact Hs|].
-  intros b' Hb'. rewrite in_block_iff by exact Hb'. intuition lia.
+  intros b' Hb'. rewrite in_block_iff by exact Hb'.
+  split; [intros [_ H]; symmetry; exact H|intros ->; split; [exact Hs|reflexivity]].
 Qed.
 
 (** state -> (block, inner) -> state *)
@@ -670,3 +672,442 @@ Proof.
 Qed.
 
 End Domain.
+
+(** ** The classification computed from accepted operators *)
+
+Definition kfN (N : nat) (ops : list poly) (s : nat) : list K := qnf ops (state_of_nat N s).
+Definition SInv (N : nat) (ops : list poly) (c : qclass K) : Prop :=
+  Inv (list K) (kfN N ops) (Nat.pow 2 N) c (length (sc_blocks c)).
+
+Lemma sc_compute_ok : forall N ops, Forall (poly_in_range N) ops ->
+  exists c, sc_compute N ops = Done c /\ SInv N ops c.
+Proof.
+  intros N ops Hops. unfold Symm.sc_compute, SInv.
+  apply (sc_compute_gen_ok (list K) qn_eqb qn_eqb_eq).
+  intros s _. apply (qn_of_sound N); [exact Hops|apply state_of_nat_length].
+Qed.
+
+Lemma sc_compute_inv : forall N ops c, Forall (poly_in_range N) ops -> sc_compute N ops = Done c -> SInv N ops c.
+Proof.
+  intros N ops c Hops E. destruct (sc_compute_ok N ops Hops) as [c' [E' I]]. congruence.
+Qed.
+
+Section Domain2.
+Hypothesis Hdom : forall a b : K, kmul a b = k0 -> a = k0 \/ b = k0.
+
+(** the Hamiltonian has no matrix element between states of different blocks *)
+Theorem H_block_diagonal_gen : forall sf N H ops c, poly_in_range N H ->
+  Forall (poly_in_range N) ops ->
+  Forall (fun Q => check_symmetry sf N H Q = Done true) ops ->
+  sc_compute N ops = Done c ->
+  forall s t, s < Nat.pow 2 N -> t < Nat.pow 2 N ->
+  cp H (state_of_nat N s) (state_of_nat N t) <> k0 ->
+  exists b, getBlockNumber (Nat.pow 2 N) c s = Done b /\ getBlockNumber (Nat.pow 2 N) c t = Done b.
+Proof.
+  intros sf N H ops c HH Hr Hacc Ec s t Hs Ht Hne.
+  pose proof (sc_compute_inv N ops c Hr Ec) as I. unfold SInv in I.
+  exists (nth s (sc_sbi c) 0).
+  rewrite (gbn_ok _ _ _ _ _ I s Hs), (gbn_ok _ _ _ _ _ I t Ht). split; [reflexivity|]. f_equal.
+  symmetry. apply (same_block_iff_same_key _ _ _ _ _ I s t Hs Ht). unfold kfN.
+  apply (H_same_qn Hdom sf N H ops HH Hr Hacc); [apply state_of_nat_length|apply state_of_nat_length|exact Hne].
+Qed.
+End Domain2.
+
+(** * Part D: uniform shift and single targets *)
+
+(** Q changes by a state-independent amount under c^+_i, for every i *)
+Definition ushift (N : nat) (d : state -> K) : Prop :=
+  forall i, i < N -> exists q, forall s, length s = N -> nth i s false = false ->
+    d (upd i true s) = kadd (d s) q.
+Definition uniform_shift (N : nat) (Q : poly) : Prop := ushift N (fun s => cp Q s s).
+
+(** the monomial m changes the diagonal function d by the fixed amount x wherever it does not vanish *)
+Definition shift_by (N : nat) (d : state -> K) (m : monomial) (x : K) : Prop :=
+  forall s sg t, length s = N -> act_mono m s = Done (Some (sg, t)) -> d t = kadd (d s) x.
+
+Lemma act_mono_single' : forall o s, act_mono [o] s = act_op o s.
+Proof. exact act_mono_single. Qed.
+
+Lemma shift_by_op : forall N d o, ushift N d -> op_idx o < N -> exists x, shift_by N d [o] x.
+Proof.
+  intros N d [ann i] Hu Hi. cbn [op_idx snd] in Hi. destruct (Hu i Hi) as [q Hq].
+  destruct ann.
+  - (* annihilation: t = upd i false s, s = upd i true t *)
+    exists (kopp q). intros s sg t Hs E. rewrite act_mono_single' in E.
+    change (true, i) with (cann i) in E. rewrite act_op_cann in E by lia.
+    destruct (nth i s false) eqn:Eo; [|discriminate]. inversion E; subst sg t.
+    assert (Hst : s = upd i true (upd i false s)).
+    { rewrite upd_upd. rewrite <- Eo. symmetry. apply upd_same. }
+    rewrite Hst at 2. rewrite Hq.
+    + ring.
+    + rewrite AlgebraBasics.upd_length. exact Hs.
+    + apply AlgebraBasics.nth_upd_same. lia.
+  - exists q. intros s sg t Hs E. rewrite act_mono_single' in E.
+    change (false, i) with (cdag i) in E. rewrite act_op_cdag in E by lia.
+    destruct (nth i s false) eqn:Eo; [discriminate|]. inversion E; subst sg t.
+    apply Hq; assumption.
+Qed.
+
+Lemma shift_by_app : forall N d m1 m2 x1 x2, shift_by N d m1 x1 -> shift_by N d m2 x2 ->
+  shift_by N d (m1 ++ m2) (kadd x2 x1).
+Proof.
+  intros N d m1 m2 x1 x2 H1 H2 s sg t Hs E. rewrite act_mono_app' in E.
+  destruct (act_mono m2 s) as [[[sg2 u]|]| | | |] eqn:E2; try discriminate.
+  destruct (act_mono m1 u) as [[[sg1 t']|]| | | |] eqn:E1; try discriminate.
+  inversion E; subst t'.
+  rewrite (H1 u sg1 t) by (try exact E1; rewrite (AlgebraBasics.act_mono_length _ _ _ _ E2); exact Hs).
+  rewrite (H2 s sg2 u Hs E2). ring.
+Qed.
+
+Lemma shift_by_mono : forall N d m, ushift N d -> mono_in_range N m -> exists x, shift_by N d m x.
+Proof.
+  intros N d m Hu. induction m as [|o m IH]; intros Hm.
+  - exists k0. intros s sg t Hs E. cbn [act_mono] in E. inversion E; subst. ring.
+  - apply mono_in_range_cons in Hm. destruct Hm as [Ho Hm].
+    destruct (shift_by_op N d o Hu Ho) as [x1 H1]. destruct (IH Hm) as [x2 H2].
+    exists (kadd x2 x1). change (o :: m) with ([o] ++ m). apply shift_by_app; assumption.
+Qed.
+
+(** closure properties of [ushift] *)
+Lemma ushift_ext : forall N d d', (forall s, length s = N -> d s = d' s) -> ushift N d -> ushift N d'.
+Proof.
+  intros N d d' He Hu i Hi. destruct (Hu i Hi) as [q Hq]. exists q. intros s Hs Ho.
+  rewrite <- !He by (try rewrite AlgebraBasics.upd_length; exact Hs). apply Hq; assumption.
+Qed.
+Lemma ushift_const : forall N c, ushift N (fun _ => c).
+Proof. intros N c i Hi. exists k0. intros. ring. Qed.
+Lemma ushift_add : forall N d1 d2, ushift N d1 -> ushift N d2 -> ushift N (fun s => kadd (d1 s) (d2 s)).
+Proof.
+  intros N d1 d2 H1 H2 i Hi. destruct (H1 i Hi) as [q1 Hq1]. destruct (H2 i Hi) as [q2 Hq2].
+  exists (kadd q1 q2). intros s Hs Ho. rewrite Hq1, Hq2 by assumption. ring.
+Qed.
+Lemma ushift_sub : forall N d1 d2, ushift N d1 -> ushift N d2 -> ushift N (fun s => ksub (d1 s) (d2 s)).
+Proof.
+  intros N d1 d2 H1 H2 i Hi. destruct (H1 i Hi) as [q1 Hq1]. destruct (H2 i Hi) as [q2 Hq2].
+  exists (ksub q1 q2). intros s Hs Ho. rewrite Hq1, Hq2 by assumption. ring.
+Qed.
+Lemma ushift_scale : forall N a d, ushift N d -> ushift N (fun s => kmul a (d s)).
+Proof.
+  intros N a d H i Hi. destruct (H i Hi) as [q Hq].
+  exists (kmul a q). intros s Hs Ho. rewrite Hq by assumption. ring.
+Qed.
+Lemma ushift_ksum : forall N (A : Type) (l : list A) (f : A -> state -> K),
+  (forall a, In a l -> ushift N (f a)) -> ushift N (fun s => ksum l (fun a => f a s)).
+Proof.
+  intros N A l f. induction l as [|a l IH]; intros H.
+  - apply (ushift_ext N (fun _ => k0)); [intros; rewrite L_ksum_nil; reflexivity|apply ushift_const].
+  - apply (ushift_ext N (fun s => kadd (f a s) (ksum l (fun a => f a s)))).
+    + intros s _. rewrite L_ksum_cons. reflexivity.
+    + apply ushift_add; [apply H; left; reflexivity|apply IH; intros b Hb; apply H; right; exact Hb].
+Qed.
+(** the occupation number of mode k *)
+Definition occ (k : nat) (s : state) : K := if nth k s false then k1 else k0.
+Lemma ushift_occ : forall N k, ushift N (occ k).
+Proof.
+  intros N k i Hi. exists (if Nat.eqb k i then k1 else k0). intros s Hs Ho. unfold occ.
+  destruct (Nat.eqb k i) eqn:E.
+  - apply Nat.eqb_eq in E. subst k. rewrite AlgebraBasics.nth_upd_same by lia. rewrite Ho. ring.
+  - apply Nat.eqb_neq in E. rewrite AlgebraBasics.nth_upd_other by congruence. ring.
+Qed.
+Lemma cp_n_diag : forall i s, i < length s -> cp (p_n i) s s = occ i s.
+Proof. intros i s Hi. rewrite L_cp_n by exact Hi. rewrite state_eqb_refl. reflexivity. Qed.
+
+(** N shifts uniformly *)
+Lemma uniform_shift_N : forall N, uniform_shift N (p_N N).
+Proof.
+  intros N. unfold uniform_shift.
+  apply (ushift_ext N (fun s => ksum (seq 0 N) (fun i => occ i s))).
+  - intros s Hs. rewrite (p_N_sem K k0 k1 kadd kmul ksub kopp kzero Hring). apply L_ksum_ext.
+    intros i Hi. apply in_seq in Hi. symmetry. apply cp_n_diag. lia.
+  - apply ushift_ksum. intros i _. apply ushift_occ.
+Qed.
+
+(** S_z shifts uniformly (whenever its constructor succeeds) *)
+Lemma uniform_shift_Sz : forall N ups P, Forall (fun i => i < N) ups -> p_Sz N ups = Done P -> uniform_shift N P.
+Proof.
+  intros N ups P Hu. unfold Poly.p_Sz, Poly.p_Sz_lists.
+  destruct (length ups =? length (sz_down N ups)); [|discriminate]. intro E. inversion E as [HP]. clear E HP.
+  unfold uniform_shift.
+  apply (ushift_ext N (fun s => kadd k0 (ksum (combine ups (sz_down N ups))
+           (fun ud => ksub (kmul khalf (occ (fst ud) s)) (kmul khalf (occ (snd ud) s)))))).
+  - intros s Hs. rewrite (p_Sz_sem_gen K k0 k1 kadd kmul ksub kopp kzero Hring), L_cp_nil. f_equal.
+    apply L_ksum_ext. intros [u d] Hud. cbn [fst snd].
+    assert (Hu' : u < N) by (apply in_combine_l in Hud; rewrite Forall_forall in Hu; apply Hu; exact Hud).
+    assert (Hd' : d < N).
+    { apply in_combine_r in Hud. pose proof (sz_down_range N ups) as Hr. rewrite Forall_forall in Hr. apply Hr; exact Hud. }
+    rewrite !cp_n_diag by lia. reflexivity.
+  - apply ushift_add; [apply ushift_const|]. apply ushift_ksum. intros ud _.
+    apply ushift_sub; apply ushift_scale; apply ushift_occ.
+Qed.
+
+(** every operator whose diagonal is a linear form in the occupation numbers shifts uniformly *)
+Definition lin_form (c0 : K) (terms : list (K * nat)) (s : state) : K :=
+  kadd c0 (ksum terms (fun qk => kmul (fst qk) (occ (snd qk) s))).
+Lemma uniform_shift_linear : forall N Q c0 terms,
+  (forall s, length s = N -> cp Q s s = lin_form c0 terms s) -> uniform_shift N Q.
+Proof.
+  intros N Q c0 terms H. unfold uniform_shift.
+  apply (ushift_ext N (lin_form c0 terms)); [intros s Hs; symmetry; apply H; exact Hs|].
+  unfold lin_form. apply ushift_add; [apply ushift_const|]. apply ushift_ksum. intros qk _.
+  apply ushift_scale. apply ushift_occ.
+Qed.
+
+(** ** Single target *)
+
+Lemma qnf_cons : forall Q r s, qnf (Q :: r) s = cp Q s s :: qnf r s.
+Proof. reflexivity. Qed.
+
+(** if every operator of the list shifts uniformly, a monomial maps states with equal quantum numbers
+    to states with equal quantum numbers -- and conversely *)
+Lemma qnf_shift : forall N ops m, Forall (uniform_shift N) ops -> mono_in_range N m ->
+  forall s s' sg sg' t t', length s = N -> length s' = N ->
+  act_mono m s = Done (Some (sg, t)) -> act_mono m s' = Done (Some (sg', t')) ->
+  (qnf ops s = qnf ops s' <-> qnf ops t = qnf ops t').
+Proof.
+  intros N ops m Hu Hm s s' sg sg' t t' Hs Hs' E E'.
+  induction Hu as [|Q r HQ Hr IH]; [cbn; tauto|].
+  rewrite !qnf_cons. destruct (shift_by_mono N (fun u => cp Q u u) m HQ Hm) as [x Hx].
+  pose proof (Hx s sg t Hs E) as H1. pose proof (Hx s' sg' t' Hs' E') as H2. cbn beta in H1, H2.
+  split; intro H; inversion H as [[Hh Ht]]; f_equal; try (apply IH; exact Ht).
+  - rewrite H1, H2, Hh. reflexivity.
+  - transitivity (ksub (kadd (cp Q s s) x) x); [ring|]. rewrite <- H1, Hh, H2. ring.
+Qed.
+
+Section WithClass.
+Variables (N : nat) (ops : list poly) (c : qclass K).
+Hypothesis Hops : Forall (poly_in_range N) ops.
+Hypothesis Ec : sc_compute N ops = Done c.
+
+Let I : SInv N ops c := sc_compute_inv N ops c Hops Ec.
+
+Definition blk (s : nat) : nat := nth s (sc_sbi c) 0.
+
+Lemma kfN_label : forall t, length t = N -> kfN N ops (nat_of_state t) = qnf ops t.
+Proof. intros t Ht. unfold kfN. rewrite <- Ht, state_of_nat_of_state. reflexivity. Qed.
+
+Lemma label_lt : forall t, length t = N -> nat_of_state t < Nat.pow 2 N.
+Proof. intros t Ht. rewrite <- Ht. apply nat_of_state_lt. Qed.
+
+(** [single_target]: all non-vanishing images of the states of one block lie in one block;
+    and the images of different blocks lie in different blocks *)
+Theorem single_target_gen : forall m, Forall (uniform_shift N) ops -> mono_in_range N m ->
+  forall s s' sg sg' t t', s < Nat.pow 2 N -> s' < Nat.pow 2 N ->
+  act_mono m (state_of_nat N s) = Done (Some (sg, t)) ->
+  act_mono m (state_of_nat N s') = Done (Some (sg', t')) ->
+  (blk s = blk s' <-> blk (nat_of_state t) = blk (nat_of_state t')).
+Proof.
+  intros m Hu Hm s s' sg sg' t t' Hs Hs' E E'.
+  pose proof (AlgebraBasics.act_mono_length _ _ _ _ E) as Ht. rewrite state_of_nat_length in Ht.
+  pose proof (AlgebraBasics.act_mono_length _ _ _ _ E') as Ht'. rewrite state_of_nat_length in Ht'.
+  unfold blk.
+  rewrite (same_block_iff_same_key _ _ _ _ _ I s s' Hs Hs').
+  rewrite (same_block_iff_same_key _ _ _ _ _ I _ _ (label_lt t Ht) (label_lt t' Ht')).
+  rewrite !kfN_label by assumption. unfold kfN.
+  apply (qnf_shift N ops m Hu Hm _ _ sg sg'); try assumption; apply state_of_nat_length.
+Qed.
+
+(** ** mapsTo and prepare for a one-monomial operator (c_i, c^+_i, c^+_i c_j) *)
+Hypothesis H10 : k1 <> k0.
+
+Local Notation first_image := (first_image K kadd kopp kzero).
+Local Notation mapsTo := (mapsTo K kadd kopp kzero).
+Local Notation prepare := (prepare K kadd kopp kzero).
+
+Lemma kzero_k1 : kzero k1 = false.
+Proof. destruct (kzero k1) eqn:E; [apply kzero_iff in E; contradiction|reflexivity]. Qed.
+Lemma kzero_opp_k1 : kzero (kopp k1) = false.
+Proof.
+  destruct (kzero (kopp k1)) eqn:E; [|reflexivity]. apply kzero_iff in E. exfalso. apply H10.
+  transitivity (kopp (kopp k1)); [ring|]. rewrite E. ring.
+Qed.
+
+Lemma first_image_spec : forall m states, mono_in_range N m ->
+  exists o, first_image N [(m, k1)] states = Done o /\
+    match o with
+    | None => forall s, In s states -> act_mono m (state_of_nat N s) = Done None
+    | Some tl => exists s sg t, In s states /\ act_mono m (state_of_nat N s) = Done (Some (sg, t)) /\
+                                tl = nat_of_state t
+    end.
+Proof.
+  intros m states Hm. induction states as [|s r IH].
+  - exists None. split; [reflexivity|]. intros s [].
+  - cbn [Symm.first_image]. unfold Poly.act_poly. cbn [fold_left bind fst snd].
+    destruct (act_mono_in_range N m (state_of_nat N s) Hm (state_of_nat_length N s)) as [res Hres].
+    rewrite Hres. destruct res as [[sg t]|].
+    + cbn [bind Poly.lc_add Symm.min_label].
+      assert (Hz : kzero (if sg then kopp k1 else k1) = false) by (destruct sg; [apply kzero_opp_k1|apply kzero_k1]).
+      rewrite Hz. exists (Some (nat_of_state t)). split; [reflexivity|].
+      exists s, sg, t. split; [left; reflexivity|]. split; [exact Hres|reflexivity].
+    + cbn [bind Symm.min_label]. destruct IH as [o [Eo Ho]]. exists o. split; [exact Eo|].
+      destruct o as [tl|].
+      * destruct Ho as [s' [sg [t [Hin [E1 E2]]]]]. exists s', sg, t. split; [right; exact Hin|]. split; assumption.
+      * intros s' [->|Hin]; [exact Hres|apply Ho; exact Hin].
+Qed.
+
+(** the transitions of m between blocks that really occur *)
+Definition maps (m : monomial) (R L : nat) : Prop :=
+  exists s sg t, In s (nth R (sc_blocks c) []) /\ act_mono m (state_of_nat N s) = Done (Some (sg, t)) /\
+                 blk (nat_of_state t) = L.
+
+Lemma mapsTo_spec : forall m R, mono_in_range N m -> R < numberOfBlocks c ->
+  exists o, mapsTo N c [(m, k1)] R = Done o /\
+    match o with
+    | None => forall L, ~ maps m R L
+    | Some L => maps m R L /\ L < numberOfBlocks c
+    end.
+Proof.
+  intros m R Hm HR. unfold Symm.mapsTo.
+  rewrite (block_nth_error _ _ R HR).
+  destruct (first_image_spec m (nth R (sc_blocks c) []) Hm) as [o [Eo Ho]]. rewrite Eo. cbn [bind].
+  destruct o as [tl|].
+  - destruct Ho as [s [sg [t [Hin [E ->]]]]].
+    pose proof (AlgebraBasics.act_mono_length _ _ _ _ E) as Ht. rewrite state_of_nat_length in Ht.
+    rewrite (gbn_ok _ _ _ _ _ I _ (label_lt t Ht)). cbn [bind].
+    exists (Some (blk (nat_of_state t))). split; [reflexivity|]. split.
+    + exists s, sg, t. split; [exact Hin|]. split; [exact E|reflexivity].
+    + apply (block_lt _ _ _ _ _ I). apply label_lt. exact Ht.
+  - exists None. split; [reflexivity|]. intros L [s [sg [t [Hin [E _]]]]]. rewrite (Ho s Hin) in E. discriminate.
+Qed.
+
+Section Uniform.
+Hypothesis Hu : Forall (uniform_shift N) ops.
+Variable m : monomial.
+Hypothesis Hm : mono_in_range N m.
+
+Lemma maps_functional : forall R L L', R < numberOfBlocks c -> maps m R L -> maps m R L' -> L = L'.
+Proof.
+  intros R L L' HR [s [sg [t [Hin [E HL]]]]] [s' [sg' [t' [Hin' [E' HL']]]]].
+  apply (in_block_iff _ _ _ _ _ I R s HR) in Hin. apply (in_block_iff _ _ _ _ _ I R s' HR) in Hin'.
+  destruct Hin as [Hs Hb]. destruct Hin' as [Hs' Hb'].
+  rewrite <- HL, <- HL'. apply (single_target_gen m Hu Hm s s' sg sg' t t' Hs Hs' E E').
+  unfold blk. congruence.
+Qed.
+
+Lemma maps_injective : forall R R' L, R < numberOfBlocks c -> R' < numberOfBlocks c ->
+  maps m R L -> maps m R' L -> R = R'.
+Proof.
+  intros R R' L HR HR' [s [sg [t [Hin [E HL]]]]] [s' [sg' [t' [Hin' [E' HL']]]]].
+  apply (in_block_iff _ _ _ _ _ I R s HR) in Hin. apply (in_block_iff _ _ _ _ _ I R' s' HR') in Hin'.
+  destruct Hin as [Hs Hb]. destruct Hin' as [Hs' Hb'].
+  rewrite <- Hb, <- Hb'. apply (single_target_gen m Hu Hm s s' sg sg' t t' Hs Hs' E E'). congruence.
+Qed.
+
+(** the loop of prepare(): with a functional, injective block map no insertion into the bimap is
+    refused and no part-map entry is overwritten *)
+Lemma prepare_loop_spec : forall (l : list nat) (f0 : fieldop),
+  NoDup l -> (forall R, In R l -> R < numberOfBlocks c) ->
+  fo_bimap f0 = fo_parts f0 ->
+  (forall L R, In (L, R) (fo_parts f0) -> R < numberOfBlocks c /\ maps m R L /\ ~ In R l) ->
+  exists f, prepare_loop (mapsTo N c [(m, k1)]) l f0 = Done f /\
+    fo_bimap f = fo_parts f /\
+    (forall L R, In (L, R) (fo_parts f) <-> In (L, R) (fo_parts f0) \/ (In R l /\ maps m R L)).
+Proof.
+  induction l as [|R l IH]; intros f0 Hnd Hl Hbp H0.
+  - exists f0. split; [reflexivity|]. split; [exact Hbp|]. intros L R. cbn [In]. tauto.
+  - inversion Hnd as [|x y HRl Hnd']; subst. cbn [prepare_loop]. unfold prepare_step.
+    assert (HR : R < numberOfBlocks c) by (apply Hl; left; reflexivity).
+    destruct (mapsTo_spec m R Hm HR) as [o [Eo Ho]]. rewrite Eo. cbn [bind].
+    destruct o as [L|].
+    + destruct Ho as [HmL HL].
+      assert (Hfresh : existsb (fun lr => Nat.eqb (fst lr) L || Nat.eqb (snd lr) R) (fo_bimap f0) = false).
+      { apply not_true_is_false. intro Hex. apply existsb_exists in Hex.
+        destruct Hex as [[L' R'] [Hin Hor]]. cbn [fst snd] in Hor. rewrite Hbp in Hin.
+        destruct (H0 L' R' Hin) as [HR' [Hm' Hnot]].
+        apply orb_true_iff in Hor. destruct Hor as [Hor|Hor]; apply Nat.eqb_eq in Hor; subst.
+        - apply Hnot. left. apply (maps_injective R R' L HR HR' HmL Hm').
+        - apply Hnot. left; reflexivity. }
+      destruct (IH {| fo_parts := fo_parts f0 ++ [(L, R)];
+                      fo_fromRight := map_set R (length (fo_parts f0)) (fo_fromRight f0);
+                      fo_fromLeft := map_set L (length (fo_parts f0)) (fo_fromLeft f0);
+                      fo_bimap := bimap_insert L R (fo_bimap f0) |}) as [f [Ef [Hbpf Hf]]].
+      * exact Hnd'.
+      * intros R' HR'. apply Hl. right; exact HR'.
+      * cbn [fo_bimap fo_parts]. unfold bimap_insert. rewrite Hfresh, Hbp. reflexivity.
+      * cbn [fo_parts]. intros L' R' Hin. apply in_app_or in Hin. destruct Hin as [Hin|[Hin|[]]].
+        -- destruct (H0 L' R' Hin) as [A [B C]]. split; [exact A|]. split; [exact B|]. intro Hx. apply C. right; exact Hx.
+        -- inversion Hin; subst. split; [exact HR|]. split; [exact HmL|exact HRl].
+      * exists f. split; [exact Ef|]. split; [exact Hbpf|]. intros L' R'. rewrite Hf. cbn [fo_parts In].
+        rewrite in_app_iff. cbn [In]. split.
+        -- intros [[Hin|[Hin|[]]]|[Hin Hmm]]; [left; exact Hin| |right; split; [right; exact Hin|exact Hmm]].
+           inversion Hin; subst. right. split; [left; reflexivity|exact HmL].
+        -- intros [Hin|[[->|Hin] Hmm]]; [left; left; exact Hin| |right; split; assumption].
+           left. right. left. f_equal. apply (maps_functional R' L L' HR HmL Hmm).
+    + destruct (IH f0) as [f [Ef [Hbpf Hf]]].
+      * exact Hnd'.
+      * intros R' HR'. apply Hl. right; exact HR'.
+      * exact Hbp.
+      * intros L' R' Hin. destruct (H0 L' R' Hin) as [A [B C]]. split; [exact A|]. split; [exact B|]. intro Hx. apply C. right; exact Hx.
+      * exists f. split; [exact Ef|]. split; [exact Hbpf|]. intros L' R'. rewrite Hf. cbn [In]. split.
+        -- intros [Hin|[Hin Hmm]]; [left; exact Hin|right; split; [right; exact Hin|exact Hmm]].
+        -- intros [Hin|[[->|Hin] Hmm]]; [left; exact Hin| |right; split; assumption].
+           exfalso. exact (Ho L' Hmm).
+Qed.
+
+(** prepare() selects exactly the block pairs between which the operator has a matrix element *)
+Theorem prepare_complete_gen :
+  exists f, prepare N c [(m, k1)] = Done f /\ fo_bimap f = fo_parts f /\
+    forall L R, In (L, R) (fo_bimap f) <-> (R < numberOfBlocks c /\ maps m R L).
+Proof.
+  unfold Symm.prepare.
+  destruct (prepare_loop_spec (seq 0 (numberOfBlocks c)) fo_empty) as [f [Ef [Hbp Hf]]].
+  - apply seq_NoDup.
+  - intros R HR. apply in_seq in HR. lia.
+  - reflexivity.
+  - intros L R [].
+  - exists f. split; [exact Ef|]. split; [exact Hbp|]. intros L R. rewrite Hbp, Hf. cbn [fo_parts fo_empty In].
+    rewrite in_seq. split.
+    + intros [[]|[H1 H2]]. split; [lia|exact H2].
+    + intros [H1 H2]. right. split; [lia|exact H2].
+Qed.
+
+End Uniform.
+End WithClass.
+
+(** ** The repaired acceptance test implies uniform shift *)
+
+Lemma p_cdag_in_range : forall N i, i < N -> poly_in_range N (p_cdag i).
+Proof. intros N i Hi. constructor; [|constructor]. cbn [fst]. constructor; [exact Hi|constructor]. Qed.
+Lemma p_c_in_range : forall N i, i < N -> poly_in_range N (p_c i).
+Proof. intros N i Hi. constructor; [|constructor]. cbn [fst]. constructor; [exact Hi|constructor]. Qed.
+Lemma p_n_offdiag_in_range : forall N i j, i < N -> j < N -> poly_in_range N (p_n_offdiag i j).
+Proof.
+  intros N i j Hi Hj. constructor; [|constructor]. cbn [fst]. constructor; [exact Hi|]. constructor; [exact Hj|constructor].
+Qed.
+
+Lemma shift_test_i_sound : forall N Q i, poly_in_range N Q -> diagonal N Q -> i < N ->
+  shift_test_i N Q i = Done true ->
+  exists q, forall s, length s = N -> nth i s false = false ->
+    cp Q (upd i true s) (upd i true s) = kadd (cp Q s s) q.
+Proof.
+  intros N Q i HQ Hd Hi. unfold Symm.shift_test_i.
+  destruct (commutator Q (p_cdag i)) as [comm| | | |] eqn:Ec; try discriminate. cbn [bind].
+  destruct (get_melem comm (upd i true (zeros N)) (zeros N)) as [q| | | |] eqn:Eq; try discriminate. cbn [bind].
+  intro Heq. apply L_eq in Heq. exists q. intros s Hs Ho.
+  set (t := upd i true s).
+  assert (Ht : length t = N) by (unfold t; rewrite AlgebraBasics.upd_length; exact Hs).
+  pose proof (L_commutator N Q (p_cdag i) comm s t HQ (p_cdag_in_range N i Hi) Hs Ht Ec) as E.
+  rewrite Heq, L_pscale in E.
+  assert (Eact : act_mono [cdag i] s = Done (Some (par i s, t))).
+  { rewrite act_mono_single', act_op_cdag by lia. rewrite Ho. reflexivity. }
+  assert (Hcd : forall u, cp (p_cdag i) s u = kadd (kmul k1 (cm [cdag i] s u)) k0).
+  { intros u. unfold Poly.p_cdag. rewrite L_cp_cons, L_cp_nil. reflexivity. }
+  rewrite (L_single N t) in E; [|exact Ht|].
+  2:{ intros u Hu Hut. rewrite Hcd, (cm_other K k0 k1 kopp _ _ _ _ u Eact Hut). ring. }
+  rewrite (L_single N s) in E; [|exact Hs|].
+  2:{ intros u Hu Hus. rewrite (Hd s u Hs Hu) by congruence. ring. }
+  rewrite Hcd, (cm_unit K k0 k1 kopp _ _ _ _ Eact) in E.
+  fold t. set (Qt := cp Q t t) in *. set (Qs := cp Q s s) in *.
+  destruct (par i s).
+  - transitivity (kadd (kopp (ksub (kmul Qt (kadd (kmul k1 (kopp k1)) k0)) (kmul (kadd (kmul k1 (kopp k1)) k0) Qs))) Qs); [ring|].
+    rewrite <- E. ring.
+  - transitivity (kadd (ksub (kmul Qt (kadd (kmul k1 k1) k0)) (kmul (kadd (kmul k1 k1) k0) Qs)) Qs); [ring|].
+    rewrite <- E. ring.
+Qed.
+
+Theorem shift_test_sound : forall N H Q, poly_in_range N Q ->
+  check_symmetry true N H Q = Done true -> uniform_shift N Q.
+Proof.
+  intros N H Q HQ Hacc. pose proof (accepted_is_diagonal_gen _ _ _ _ HQ Hacc) as Hd.
+  destruct (check_symmetry_true _ _ _ _ Hacc) as [_ [_ Hs]]. specialize (Hs eq_refl).
+  intros i Hi. apply (shift_test_i_sound N Q i HQ Hd Hi). apply Hs. exact Hi.
+Qed.
